@@ -91,8 +91,10 @@ def find_sites(fi: FuncInfo) -> List[Site]:
                                 n.args[0]))
             elif fs in ("re.compile", "re.search", "re.match", "re.fullmatch",
                         "re.sub", "re.findall") and n.args:
-                out.append(Site("regex", n, fi, ("re.error",), None,
-                                n.args[0]))
+                # an over-large repetition count (`a{99999999999}`) is
+                # reported as OverflowError, not re.error
+                out.append(Site("regex", n, fi, ("re.error", "OverflowError"),
+                                None, n.args[0]))
             elif fs.endswith("literal_eval"):
                 out.append(Site("literal_eval", n, fi,
                                 ("ValueError", "SyntaxError", "TypeError"),
